@@ -10,6 +10,10 @@ CHECKS = {
    text="generated probe streams (random, constant fills, static prefixes + garbage, look-alikes, bit-flipped genuine flights of registered clients, threshold lengths) under generated segmentation, pacing and prober behaviour against the real connection handler, transports and registry; monitors: no byte written, no return before 5 s / after 10 s, handler keeps reading; every run is repeated as a twin with random content and must react identically",
    note="trusted: simnet, synctest clock, seamgen overlay; the accept loop / original-destination lookup of handleNewConn is re-implemented by the harness; input space is sampled",
    tech=TECH + " (simulated TCP segmentation/pacing/clock, seeded search, differential twin run)"),
+ "C04": dict(cat="exploration", ref="5 C04",
+   text="for min and every prefix id x flush policy x port mode all single cuts (offsets 1..89) of the real client's first flight + early data are enumerated, all cut pairs for min and a seed-rotated twelfth of the prefix parameter sets (thorough: all); generated runs add 1-3 concurrent clients (incl. obfs4 with the real interactive handshake), k-cut segmentations, pacing, early data up to 64 KiB and co-registrations; oracle: echo host got exactly the application bytes, client got the echo, one dial, registration still matchable after 11 min + sweep",
+   note="trusted: simnet, synctest clock, seamgen overlay, echo actor; obfs4's 2-cut space and the pacing space are sampled; accept-loop glue re-implemented",
+   tech=TECH + " (segmentation enumeration + seeded schedule/pacing search through the real station)"),
  "C05": dict(cat="fault_enumeration", ref="5 C05",
    text="every single fault (connection end x operation kind x operation index < 6 x error shape, plus dial failures) over eight relay workloads is enumerated against the real Proxy/halfPipe under simulator-chosen I/O interleavings; pairs of faults and generated workloads are sampled (thorough: pairs enumerated for three workloads)",
    note="trusted: simnet's model of TCP errors (OpError/SyscallError shapes), the synctest fake clock, the seamgen overlay; interleavings are sampled, not enumerated",
